@@ -42,6 +42,7 @@ def run(ctx):
     c_shared_structure(ctx, enc)
     e_cleanup_keeps_needed(ctx)
     e_done_instances_inert(ctx)
+    e_oldest_instance_not_read(ctx)
 
 
 def _enc_branches(enc):
@@ -501,6 +502,42 @@ def c_shared_structure(ctx, enc):
     ctx.check("C11.b.dict-keys", SER, enc.name, "dict keys survive the round trip", keys_ok,
               "non-string dict keys are encoded explicitly" if keys_ok else
               "dict keys are used as JSON object keys as they are: json.dumps turns `{1: \"one\"}` into `{\"1\": ...}` and nothing converts them back, so `$names[2]` works live and fails after a restore", line=(db.lineno if db else enc.lineno))
+
+
+GEN2_ = "nemoguardrails/actions/v2_x/generation.py"
+
+
+def e_oldest_instance_not_read(ctx):
+    """`state.flow_id_states[<flow id>]` lists the instances of a flow that are still RETAINED: finished ones disappear from its front 5 s after they ended (_clean_up_state).
+    Code that reads the FIRST element asks "the oldest instance that has not been discarded yet" - an answer that changes with idle time alone.  The LLM prompt builder did that to
+    decide whether a flow is a user intent (F154: the bot answered "Can you rephrase?" within 5 s and "Hello world!" after 6 s).  Decided: the action modules read no
+    `...flow_id_states[...][0]` (through a temporary or directly); the newest instance `[-1]` does not age."""
+    n = 0
+    for rel in (GEN2_,):
+        if not ctx.tree.exists(rel):
+            continue
+        t = ctx.tree.ast(rel)
+        for fn in functions(t):
+            lists = {a.targets[0].id for a in ast.walk(fn) if isinstance(a, ast.Assign) and isinstance(a.targets[0], ast.Name) and isinstance(a.value, ast.Subscript)
+                     and src(a.value.value).endswith("flow_id_states")}
+            for x in ast.walk(fn):
+                idx = None
+                if isinstance(x, ast.Subscript):
+                    try:
+                        idx = ast.literal_eval(x.slice)
+                    except Exception:
+                        idx = None
+                if isinstance(idx, int) and not isinstance(idx, bool):
+                    base = x.value
+                    is_list = (isinstance(base, ast.Subscript) and src(base.value).endswith("flow_id_states")) or (isinstance(base, ast.Name) and base.id in lists)
+                    if is_list:
+                        n += 1
+                        ok = idx == -1
+                        ctx.check("C11.e.oldest-instance-not-read", rel, qualname(fn), first_line(x, 60), ok,
+                                  "the newest instance is read (not affected by the clean-up of old ones)" if ok else
+                                  "`%s` reads the OLDEST retained instance of the flow: which one that is depends on whether finished instances have been discarded yet (5 s of idle "
+                                  "time) - the same conversation continues differently after a pause" % first_line(x, 50), line=x.lineno)
+    ctx.stat("positional_reads_of_instance_lists", n)
 
 
 def e_done_instances_inert(ctx):
